@@ -74,6 +74,8 @@ func c01RaceCall(m *vk.M, desc string, b Breaker, name string, kind string, name
 			reqErr = c01ErrBenign
 		case "uerr":
 			reqErr = c01ErrBad
+		case "unavail":
+			reqErr = ErrServiceUnavailable
 		case "panic":
 			panic(pv)
 		}
@@ -141,7 +143,11 @@ func c01RaceCall(m *vk.M, desc string, b Breaker, name string, kind string, name
 		}
 		return false, false, false
 	}
-	if ranFb > 0 || (!panicked && ret == ErrServiceUnavailable) {
+	if out == "unavail" && ranFb > 0 {
+		m.Violate("C01:admit:fallback-ran:req-returned-unavailable", desc, "%s: req ran and returned ErrServiceUnavailable itself; the fallback ran %d times and the caller got %v", kind, ranFb, ret)
+		return true, false, false
+	}
+	if ranFb > 0 || (!panicked && ret == ErrServiceUnavailable && reqErr != ErrServiceUnavailable) {
 		m.Violate("C01:reject:req-ran", desc, "%s ran the protected function and then treated the call as rejected (fallback ran %d times, returned %v)", kind, ranFb, ret)
 		return true, false, false
 	}
@@ -261,7 +267,7 @@ func TestVerifC01Race(t *testing.T) {
 					}
 					out := "ok"
 					if bad {
-						out = []string{"uerr", "uerr", "panic"}[lr.Intn(3)]
+						out = []string{"uerr", "uerr", "panic", "unavail"}[lr.Intn(4)]
 						if kind == "allow" {
 							out = "uerr"
 						}
